@@ -70,14 +70,14 @@ PLANS = {
         'quick': [
             leg('K', 'K', 96, opts={'cases': 10}, weight=10, max_workers=10,
                 selftest=3),
-            leg('R', 'R', 18, opts={'events': 8, 'kmax': 6}, weight=6, max_workers=6,
-                selftest=1, timeout=1700),
+            leg('R', 'R', 12, opts={'events': 6, 'kmax': 5, 'light': True}, weight=6,
+                max_workers=6, selftest=1, timeout=1700),
         ],
         'thorough': [
             leg('K', 'K', 1600, opts={'cases': 12}, weight=10, max_workers=10,
                 selftest=6, timeout=3400, deadline=3500),
-            leg('R', 'R', 150, opts={'events': 10, 'kmax': 7}, weight=6, max_workers=6,
-                selftest=2, timeout=3400, deadline=3500),
+            leg('R', 'R', 120, opts={'events': 8, 'kmax': 6, 'light': True}, weight=6,
+                max_workers=6, selftest=2, timeout=3400, deadline=3500),
         ],
         'rule': (
             'Each evaluation is one seeded simulated run = a sequence of '
